@@ -3,7 +3,15 @@
 import json, os
 HERE = os.path.dirname(os.path.abspath(__file__))
 BASE_OFF = "cd /repo && /venv/bin/python -m pytest -ra -q -p no:cacheprovider --timeout=900 --continue-on-collection-errors"
-CHECKS = json.load(open(os.path.join(HERE, 'manifest_checks.json')))
+import glob
+CHECKS = {'claimed': {}, 'not_applicable': {}, 'notes': 'See DESIGN.md. Every check: lint of the Coq development, full make (no-op when current), fresh coqc of coq/props/<id>.v with Print Assumptions parsed, W-correspondence (Python implementation from /repo vs extracted Gallina model, sample re-evaluated by vm_compute), R-validation against the real tool where it exists, and a direct search for failing inputs on the implementation.'}
+for f in sorted(glob.glob(os.path.join(HERE, 'manifest.d', 'C*.json'))):
+    CHECKS['claimed'][os.path.basename(f)[:-5]] = json.load(open(f))
+# known findings: merged from findings.d/*.json (lists of entries) at development time, never at run time
+kf = []
+for f in sorted(glob.glob(os.path.join(HERE, 'findings.d', 'C*.json'))):
+    kf.extend(json.load(open(f)))
+json.dump(kf, open(os.path.join(HERE, 'known_findings.json'), 'w'), indent=1)
 props = [json.loads(l) for l in open(os.path.join(HERE, 'properties.jsonl'))]
 ids = [p['id'] for p in props]
 checks = []
